@@ -1299,6 +1299,15 @@ class Engine:
             return r.value
         return NONE
 
+    def _default(self, expr, dfr, f):
+        """a default value is evaluated ONCE, when the function is defined, and shared by all its calls (a mutable
+        default is one object): evaluated lazily at the first use on a path and remembered"""
+        cache = self.path.__dict__.setdefault('defaults', {})
+        key = (id(expr), id(f.frame))
+        if key not in cache:
+            cache[key] = self.eval(expr, dfr)
+        return cache[key]
+
     def bind_params(self, a, args, kwargs, fr, f):
         args = list(args)
         kwargs = dict(kwargs)
@@ -1311,7 +1320,7 @@ class Engine:
             elif p.arg in kwargs:
                 fr.env[p.arg] = kwargs.pop(p.arg)
             elif defaults[i] is not None:
-                fr.env[p.arg] = self.eval(defaults[i], dfr)
+                fr.env[p.arg] = self._default(defaults[i], dfr, f)
             else:
                 self.throw('TypeError')
         extra = args[len(pos):]
@@ -1325,7 +1334,7 @@ class Engine:
             if p.arg in kwargs:
                 fr.env[p.arg] = kwargs.pop(p.arg)
             elif d is not None:
-                fr.env[p.arg] = self.eval(d, dfr)
+                fr.env[p.arg] = self._default(d, dfr, f)
             else:
                 self.throw('TypeError')
         if a.kwarg is not None:
